@@ -33,6 +33,8 @@ def d1(ctx, prog):
     build = a.methods.get('build')
     if build is None:
         raise AnalysisError('BaseTemplateAttack.build not found')
+    from .. import normalize
+    build = normalize.normal(prog, build)
     sts = [s for s in build.node.body if isinstance(s, ast.Assign) and self_attr(s.targets[0])]
     last = build.node.body[-1]
     is_last = isinstance(last, ast.Assign) and self_attr(last.targets[0]) == 'is_build' and isinstance(last.value, ast.Constant) and last.value.value is True
